@@ -25,7 +25,7 @@ ASSUMPTIONS = [
     "c_symmetry > 1: only the clauses that are independent of what a symmetry means are asserted (range, symmetry in the arguments, zero for equal orientations)",
     "test inputs are built with scipy Rotation.from_matrix / from_euler; expected values never use scipy",
 ]
-BUDGET = {"quick": {"examples": 2500, "seconds": 60}, "thorough": {"examples": 12000, "seconds": 420}}
+BUDGET = {"quick": {"examples": 5000, "seconds": 60}, "thorough": {"examples": 12000, "seconds": 420}}
 EXHAUSTIVE = "all 24x24 ordered pairs of cube rotations; all single orientations of the 45-degree Euler lattice (17x9x17)"
 
 TOL = 2e-5
